@@ -30,6 +30,10 @@ def all_cases(rng, quick):
                         # names, extra members in the params): one in quick, fifteen in thorough
                         for v in (range(1) if quick else range(15)):
                             cases.append({"kind": kind, "mclass": m, "pshape": p, "idc": idc if kind == "request" else "intPos", "typed": typed, "v": v})
+    # neither requests nor notifications: stray responses, lists, a bare message
+    for m in ("strayResponse", "strayError", "strayList", "strayEmptyList", "strayBare"):
+        for idc in server_drv.IDCLASSES[:-1]:
+            cases.append({"kind": "request", "mclass": m, "pshape": "absent", "idc": idc, "typed": False, "v": 0})
     return cases
 
 
